@@ -849,9 +849,12 @@ package query
 //@   ensures [current-block-released-only] blockReleased == store(old(blockReleased), blockId(rs.Blocks[0]), true)
 //@   modifies blockReleased
 
+//@ ghost var lastExecFlow int
 //@ func (*Processor).execute
-//@   trusted assumed: statement execution (the interpreter loop, outside the verified subset) releases exactly the blocks it takes itself and never rewrites the block list of an existing scope
+//@   trusted assumed: statement execution (the interpreter loop, outside the verified subset) releases exactly the blocks it takes itself and never rewrites the block list of an existing scope; the ghost lastExecFlow names the flow it returned
 //@   ghostset blockDirty = true
+//@   ensures lastExecFlow == result0
+//@   modifies lastExecFlow
 //@   modifies * except F:query.ReferenceScope. E:query.BlockScope# F:query.VariableMap. E:map[string][]int# E:[]string#
 //@ func NewProcessorWithScope
 //@   trusted assumed: allocates a processor for the given scope
@@ -1479,6 +1482,17 @@ package query
 //@   ghostset stmtsRun = stmtsRun + 1
 //@   modifies stmtsRun
 //@   modifies * except F:query.ReferenceScope. E:query.BlockScope# F:query.VariableMap. E:map[string][]int# E:[]string#
+// statements run from a sourced file or by EXECUTE end the caller the way they ended themselves (an EXIT inside them stops
+// the program): the flow returned by the nested statement list is the flow of the statement
+//@ ghost var nestedRuns int
+//@ func (*Processor).ExecuteStatement!nested
+//@   property C01 C15
+//@   abstract *
+//@   ghostset after call (*query.Processor).execute#*: nestedRuns = nestedRuns + 1
+//@   ensures [sourced-flow-propagates] is(stmt, parser.Source) && result1 == nil && nestedRuns > old(nestedRuns) ==> result0 == lastExecFlow
+//@   ensures [executed-flow-propagates] is(stmt, parser.Execute) && result1 == nil && nestedRuns > old(nestedRuns) ==> result0 == lastExecFlow
+//@   modifies *
+//@   modifies nestedRuns, lastExecFlow
 //@ func (*Processor).execute!loop
 //@   property C15
 //@   ensures [every-statement-is-run-at-most-once-in-order] stmtsRun - old(stmtsRun) <= len(statements)
@@ -1578,4 +1592,16 @@ package query
 //@   loop 1 invariant view.sortValuesInEachCell != nil ==> cacheRowOk(view, index) && view.sortValuesInEachCell[index] != nil
 //@   loop 1 invariant forall(j, 0, $i, sortValues[j] != nil && svSource(sortValues[j]) == view.RecordSet[index][sortIndices[j]][0])
 //@   loop 1 invariant forall(k, 0, len(view.sortValuesInEachRecord), same(view.sortValuesInEachRecord[k], old(view.sortValuesInEachRecord[k])))
+//@   modifies *
+// ORDER BY items: an item without a direction sorts ascending; without NULLS FIRST/LAST, NULLs come first when ascending
+// and last when descending
+//@ spec def orderItem(c parser.OrderByClause, k int) parser.OrderItem = as(c.Items[k], parser.OrderItem)
+//@ func (*View).OrderBy
+//@   property C07
+//@   abstract SearchAnalyticFunctionsInList (*query.View).ExtendRecordCapacity (*query.View).evalAnalyticFunction (*query.View).evalColumn
+//@   loop 4 invariant 0 <= $i && $i <= len(clause.Items) && len(view.sortDirections) == len(clause.Items) && len(view.sortNullPositions) == len(clause.Items) && base(view.sortDirections) != base(view.sortNullPositions)
+//@   loop 4 invariant forall(k, 0, $i, view.sortDirections[k] == ite(orderItem(clause, k).Direction.Token == 0, parser.ASC, orderItem(clause, k).Direction.Token))
+//@   loop 4 invariant forall(k, 0, $i, view.sortNullPositions[k] == ite(orderItem(clause, k).NullsPosition.Token == 0,
+//@       ite(view.sortDirections[k] == parser.ASC, parser.FIRST, parser.LAST), orderItem(clause, k).NullsPosition.Token))
+//@   loop 4 modifies view.sortDirections[*], view.sortNullPositions[*]
 //@   modifies *
